@@ -523,7 +523,7 @@ func (r *runner) runOne(idx int, b Behaviour, mk func(dir string, rng *rand.Rand
 		switch op.Op {
 		case "process":
 			ctx, cancel := context.WithCancel(context.Background())
-			real := 0
+			real, ioAt := 0, 0
 			switch op.Fault.Kind {
 			case "stmt":
 				real = kd.realStmt(op, op.Fault.At, r.rng)
@@ -597,7 +597,17 @@ func (r *runner) runOne(idx int, b Behaviour, mk func(dir string, rng *rand.Rand
 				if op.Fault.Kind == "iowrite" {
 					kind = iofault.Write
 				}
-				if err := iofault.Arm(kd.dbPath(), kind, max(op.Fault.R, 1)); err != nil {
+				at := max(op.Fault.R, 1)
+				if op.Fault.Frac > 0 { // the call at Frac/1000 of all calls of the operation (counted on the twin first)
+					n, err := probeIO(kd, op, kind)
+					if err != nil {
+						cancel()
+						return fmt.Errorf("probe: %w", err)
+					}
+					at = 1 + op.Fault.Frac*n/1000
+				}
+				ioAt = at
+				if err := iofault.Arm(kd.dbPath(), kind, at); err != nil {
 					cancel()
 					return err
 				}
@@ -641,7 +651,7 @@ func (r *runner) runOne(idx int, b Behaviour, mk func(dir string, rng *rand.Rand
 				ev["fired"], ev["what"] = fired, what
 			}
 			if op.Fault.Kind == "ioread" || op.Fault.Kind == "iowrite" {
-				ev["fired"], ev["what"] = ioFired, fmt.Sprintf("%s call %d of %d", op.Fault.Kind, max(op.Fault.R, 1), ioSeen)
+				ev["fired"], ev["what"] = ioFired, fmt.Sprintf("%s call %d of %d", op.Fault.Kind, ioAt, ioSeen)
 				cut = !ioFired && res == "ok"
 			}
 			if perr != nil {
